@@ -5,3 +5,5 @@ CHECK_DEADLOCK FALSE
 CONSTANTS
   Mode = "probe"
   Big = FALSE
+  RawBig = TRUE
+  ColsFull = TRUE
